@@ -241,13 +241,30 @@ def _bempp_modules():
 
 
 def _state_items(owner_dict):
+    import numpy as _np
+
     for name, val in list(owner_dict.items()):
         if name.startswith("__") or name in _SKIP_ATTRS:
             continue
         if type(val) in (dict, list, set):
             yield name, "c", val
+        elif type(val) is _np.ndarray:
+            yield name, "a", val  # e.g. a quadrature table: its CONTENTS are state (in-place modification)
         elif isinstance(val, _SCALARS) or (type(val) is tuple and all(isinstance(x, _SCALARS) for x in val)):
             yield name, "s", val
+
+
+def _array_members(container):
+    """ndarray members of a module-level container (one level): their contents are state as well."""
+    import numpy as _np
+
+    if type(container) is dict:
+        vals = list(container.values())
+    elif type(container) is list:
+        vals = list(container)
+    else:
+        return []
+    return [v for v in vals if type(v) is _np.ndarray]
 
 
 def import_all_bempp_modules():
@@ -313,7 +330,12 @@ def capture_module_state():
     for key, d, owner in _owners():
         names = {}
         for name, kind, val in _state_items(d):
-            names[name] = (kind, val, _copy.copy(val) if kind == "c" else val)
+            if kind == "c":
+                names[name] = (kind, val, (_copy.copy(val), [(a, a.copy()) for a in _array_members(val)]))
+            elif kind == "a":
+                names[name] = (kind, val, val.copy())
+            else:
+                names[name] = (kind, val, val)
         refs = {name: val for name, val in d.items() if not name.startswith("__") and name not in _SKIP_ATTRS and _is_lib_instance(val)}
         state[key] = (owner, names, refs)
     return state
@@ -341,11 +363,23 @@ def install_module_state(state):
         for name, (kind, obj, saved) in names.items():
             try:
                 if kind == "c":
+                    content, arrays = saved
                     if type(obj) is list:
-                        obj[:] = saved
+                        obj[:] = content
                     else:
                         obj.clear()
-                        obj.update(saved)
+                        obj.update(content)
+                    for a, a0 in arrays:
+                        if a.shape == a0.shape and a.tobytes() != a0.tobytes():
+                            a[...] = a0
+                    if d.get(name) is not obj:
+                        setattr(owner, name, obj)
+                elif kind == "a":
+                    if obj.shape == saved.shape and obj.tobytes() != saved.tobytes():
+                        try:
+                            obj[...] = saved
+                        except ValueError:  # read-only table
+                            pass
                     if d.get(name) is not obj:
                         setattr(owner, name, obj)
                 else:
